@@ -409,8 +409,44 @@ func runC06(c *RunCtx) {
 		}
 		expect = cloneBytes(buf.Bytes())
 	}
+	if t.Intn(8) == 0 && len(ref) > 0 {
+		// the message to send was RECEIVED through this very buffer: its wire bytes are written
+		// behind what is queued, everything is read back (queued bytes discarded, the message
+		// decoded) - and the decoded object is what gets encoded below, into the drained buffer
+		buf.Write(ref)
+		buf.Next(buf.Len() - len(ref))
+		got := newValue(name)
+		if rd := tryDecode(got, buf); rd.Err == nil && rd.Panic == nil && buf.Len() == 0 {
+			if same, _ := Equal(stripComputed(got, name), stripComputed(pre, name)); same {
+				m = got
+				expect = nil
+				c.Fire("hist.decoded-from-this-buffer")
+				if t.Intn(2) == 0 {
+					junk := noise(t, 1+t.Intn(40))
+					buf.Write(junk)
+					expect = cloneBytes(junk)
+				}
+			} else {
+				expect = cloneBytes(buf.Bytes())
+			}
+		} else {
+			expect = cloneBytes(buf.Bytes())
+		}
+	}
 	check("encode", m, ref)
 	c.fireHistory(h, buf)
+	if t.Intn(8) == 0 {
+		// the buffer is recycled (scribbled over, Reset) and the same object sent again
+		full := buf.Bytes()
+		full = full[:cap(full)]
+		for i := range full {
+			full[i] ^= 0x3C
+		}
+		buf.Reset()
+		expect = nil
+		c.Fire("pool.reuse-after-reset")
+		check("encode of the same object after the buffer was recycled", m, ref)
+	}
 	re := t.Intn(3)
 	for i := 0; i < re; i++ {
 		c.Fire("hist.reencode")
@@ -465,6 +501,13 @@ func init() {
 	})
 }
 
+func sumBits(m any, geom *FrameGeom) uint64 {
+	if geom.SumField == "" {
+		return 0
+	}
+	return getBits(frameField(m, geom.SumField))
+}
+
 func runFrame(c *RunCtx, prop string) {
 	t := c.T
 	g := &Gen{t: t, cfg: drawCfg(t, c.Thorough)}
@@ -511,6 +554,21 @@ func runFrame(c *RunCtx, prop string) {
 	// trivial history first
 	refObj, ref, ok := refEncode(m)
 	if !ok {
+		// refused: if the same frame with its self-computed fields zeroed is accepted, the caller's
+		// stale value made the difference
+		z := Clone(m)
+		if geom.LenField != "" {
+			setBits(frameField(z, geom.LenField), 0)
+		}
+		if geom.SumField != "" {
+			setBits(frameField(z, geom.SumField), 0)
+		}
+		var zb bytes.Buffer
+		if rz := tryEncode(z, &zb); rz.Err == nil && rz.Panic == nil {
+			c.Oracle("stale-computed-field-is-ignored")
+			c.Fail(prop+"/refused-because-of-stale-field", name, "Encode of %s refuses the frame (%s=%d, %s=%d left by the caller) but accepts the same frame with those self-computed fields zeroed: what the caller leaves there must not matter", name, geom.LenField, getBits(frameField(m, geom.LenField)), geom.SumField, sumBits(m, geom))
+			return
+		}
 		c.Probe("skip.trivial-encode-failed")
 		return
 	}
@@ -591,6 +649,12 @@ func runFrame(c *RunCtx, prop string) {
 	c.Logf("HISTORY %s (unread=%d)", h.desc, h.unread())
 	re := t.Intn(3)
 	for i := 0; i <= re; i++ {
+		if i > 0 && bodyKind != "jumbo" && t.Intn(4) == 0 {
+			// the caller changed its message (texts grow, numbers flip) before sending it again
+			if n := mutateInPlace(reflect.ValueOf(m).Elem(), t.Bulk()); n > 0 {
+				c.Fire("app.mutate")
+			}
+		}
 		before := buf.Len()
 		r := tryEncode(m, buf)
 		if r.Panic != nil || r.Err != nil {
@@ -639,7 +703,7 @@ func runFrame(c *RunCtx, prop string) {
 	// the send buffer is recycled for the next frame: Reset, same object with other field values
 	// of the same size (sequence numbers move on), encoded at the same place in the same array
 	if t.Intn(3) == 0 {
-		if n := tweakNumbers(reflect.ValueOf(m).Elem(), schemaOf(name)); n > 0 {
+		if n := tweakNumbers(reflect.ValueOf(m).Elem(), schemaOf(name)); n >= 0 {
 			buf.Reset()
 			r := tryEncode(m, buf)
 			if r.Panic != nil || r.Err != nil {
@@ -693,4 +757,17 @@ func tweakNumbers(rv reflect.Value, ts *TypeSchema) int {
 		}
 	}
 	return n
+}
+
+// stripComputed returns a clone of a frame with its self-computed fields zeroed (for comparing a
+// decoded frame with the value that was sent irrespective of what the encoder filled in).
+func stripComputed(v any, name string) any {
+	z := Clone(v)
+	if g := frameGeoms[name]; g != nil && g.Computed {
+		setBits(frameField(z, g.LenField), 0)
+		if g.SumField != "" {
+			setBits(frameField(z, g.SumField), 0)
+		}
+	}
+	return z
 }
